@@ -25,6 +25,8 @@ class Fold:
         self.intflag = intflag  # z3 Bool: every element is an int (then the Python sum is an int)
         ctx.assume(self.F(z3.IntVal(0)) == 0)
         B = getattr(ctx.E, "bounded", None)
+        if getattr(ctx, "concrete", False):
+            B = 24  # concrete evaluation (replay / bounded stand-ins): sequences are short, unfold completely
         if B is not None:
             # refutation mode: at most B items, so the fold is unfolded completely (no lemma is needed then)
             for k in range(B):
@@ -155,9 +157,10 @@ class Locals:
         return self._raw[k]
 
 
-def eval_inv(I, loop, entry_heap, frame, i, seq, tr_entry):
+def eval_inv(I, loop, entry_heap, frame, i, seq, tr_entry, mode="assume"):
     ctx = I.ctx
     spec = Spec(ctx, entry_heap, ctx.snapshot())
+    spec.mode = mode
     spec.tr, spec.trlen, spec.tr_old_len = ctx.tr, ctx.trlen, tr_entry
     if seq is not None:
         spec.seq = spec.view(seq, spec.new_heap)
@@ -232,7 +235,7 @@ def symbolic_for(I, frame, s, it, ordinal):
     ctx.assume(n >= 0)
     entry_heap = ctx.snapshot()
     tr_entry = ctx.trlen
-    for lab, f in eval_inv(I, loop, entry_heap, frame, z3.IntVal(0), it, tr_entry).items():
+    for lab, f in eval_inv(I, loop, entry_heap, frame, z3.IntVal(0), it, tr_entry, "prove").items():
         ctx.oblige("%s/init[%s]" % (name, lab), f, kind="loop")
     names = assigned_names(s.body, s.target)
     havoc_loop(I, loop, frame, names, entry_heap, it)
@@ -250,7 +253,7 @@ def symbolic_for(I, frame, s, it, ordinal):
             pass
         except BreakSig:
             return
-        for lab, f in eval_inv(I, loop, entry_heap, frame, i + 1, it, tr_entry).items():
+        for lab, f in eval_inv(I, loop, entry_heap, frame, i + 1, it, tr_entry, "prove").items():
             ctx.oblige("%s/preserve[%s]" % (name, lab), f, kind="loop")
         raise PathEnd()
     ctx.assume(i == n)
@@ -265,7 +268,7 @@ def symbolic_while(I, frame, s, ordinal):
     name = loop_name(frame, ordinal)
     entry_heap = ctx.snapshot()
     tr_entry = ctx.trlen
-    for lab, f in eval_inv(I, loop, entry_heap, frame, z3.IntVal(0), None, tr_entry).items():
+    for lab, f in eval_inv(I, loop, entry_heap, frame, z3.IntVal(0), None, tr_entry, "prove").items():
         ctx.oblige("%s/init[%s]" % (name, lab), f, kind="loop")
     names = assigned_names(s.body)
     havoc_loop(I, loop, frame, names, entry_heap, None)
@@ -287,7 +290,7 @@ def symbolic_while(I, frame, s, ordinal):
             pass
         except BreakSig:
             return
-        for lab, f in eval_inv(I, loop, entry_heap, frame, k + 1, None, tr_entry).items():
+        for lab, f in eval_inv(I, loop, entry_heap, frame, k + 1, None, tr_entry, "prove").items():
             ctx.oblige("%s/preserve[%s]" % (name, lab), f, kind="loop")
         if loop.step is not None:
             spec = Spec(ctx, iter_heap, ctx.snapshot())
@@ -428,7 +431,34 @@ def symbolic_all_any(I, it, is_all):
 
 
 def symbolic_comprehension(I, g, kind):
-    raise Unsupported("comprehension over a sequence of unknown length")
+    """{f(x) for x in seq} over a heap sequence: a set given by its membership predicate (pure element expression)"""
+    ctx = I.ctx
+    if kind != "set":
+        raise Unsupported("%s comprehension over a sequence of unknown length" % kind)
+    gen, fr, seq = _single_gen(I, g)
+    if gen.ifs:
+        raise Unsupported("filtered set comprehension")
+    n = z3.Select(ctx.field_array("$len"), ctx.ref_id(seq))
+    j = fresh("j", z3.IntSort())
+    ctx.solver.push()
+    saved_pc = list(ctx.pc)
+    ctx.assume(z3.And(0 <= j, j < n))
+    try:
+        v = _pure_eval(I, fr, gen, seq, g.node.elt, j)
+        term = ctx.to_val(v).t
+        learned = ctx.pc[len(saved_pc) + 1 :]
+    finally:
+        ctx.solver.pop()
+        ctx.pc = saved_pc
+    if learned:
+        ctx.assume(z3.ForAll([j], z3.Implies(z3.And(0 <= j, j < n), z3.And(*learned))))
+    from .values import SymSet
+
+    def pred(k):
+        q = z3.Int("scq")
+        return z3.Exists([q], z3.And(0 <= q, q < n, z3.substitute(term, (j, q)) == k))
+
+    return SymSet(pred, "comprehension")
 
 
 def copy_seq(I, v, kind):
